@@ -426,14 +426,35 @@ impl Model for Node {
 /// Prototype wrapper used for models that have sub-models.
 pub struct ProtoNode {
     node: Node,
-    children: Vec<(ProtoNode, Mailbox<Node>, String)>,
+    /// (prototype, mailbox or - for a late mailbox - its capacity, name)
+    children: Vec<(ProtoNode, Result<Mailbox<Node>, u8>, String)>,
+    /// Connections from this model's children to this model that must be made with the address
+    /// obtained in `build()`: (position in `children`, output port, edge).
+    late_edges: Vec<(usize, usize, Edge)>,
 }
 
 impl ProtoModel for ProtoNode {
     type Model = Node;
 
-    fn build(self, cx: &mut BuildContext<Self>) -> Node {
+    fn build(mut self, cx: &mut BuildContext<Self>) -> Node {
+        if !self.late_edges.is_empty() {
+            let me = cx.address();
+            for (pos, port, e) in std::mem::take(&mut self.late_edges) {
+                let cid = e.cid;
+                let out = &mut self.children[pos].0.node.outs[port];
+                match (e.filter, e.map) {
+                    (Some((m, r)), _) => out.filter_map_connect(move |x: &Msg| (x.salt % (m.max(1) as u32) == r as u32).then(|| x.with_via(cid)), Node::on_event, me.clone()),
+                    (None, true) => out.map_connect(move |x: &Msg| x.with_via(cid), Node::on_event, me.clone()),
+                    (None, false) => out.connect(Node::on_event, me.clone()),
+                }
+            }
+        }
         for (child, mailbox, name) in self.children {
+            // A late mailbox is created here: no address of it exists before `add_submodel`.
+            let mailbox = match mailbox {
+                Ok(mb) => mb,
+                Err(cap) => Mailbox::with_capacity(cap.max(1) as usize),
+            };
             cx.add_submodel(child, mailbox, name);
         }
         self.node
@@ -559,6 +580,10 @@ pub fn build(case: &Arc<Case>, ctx: &Arc<ExecCtx>) -> Bench {
         for port in &spec.outs {
             let mut out = Output::new();
             for e in port {
+                // Connections to a late mailbox are made by its owner's `build()`.
+                if matches!(e.target, Target::Node(t) if case.nodes[t as usize].late_mailbox) {
+                    continue;
+                }
                 connect_out(&mut out, e, &addrs, &sinks, ctx);
             }
             outs.push(out);
@@ -687,10 +712,30 @@ pub fn build(case: &Arc<Case>, ctx: &Arc<ExecCtx>) -> Bench {
                     continue;
                 }
                 let proto = take_proto(c, case, nodes, mailboxes, orphans);
-                children.push((proto, mb, case.nodes[c].name.clone()));
+                if case.nodes[c].late_mailbox {
+                    // The pre-created mailbox (whose address was taken) is not used.
+                    orphans.push(mb);
+                    children.push((proto, Err(case.nodes[c].cap), case.nodes[c].name.clone()));
+                } else {
+                    children.push((proto, Ok(mb), case.nodes[c].name.clone()));
+                }
             }
         }
-        ProtoNode { node, children }
+        // Edges from direct children to this model, if its mailbox is a late one.
+        let mut late_edges = Vec::new();
+        if case.nodes[i].late_mailbox {
+            let child_ids: Vec<usize> = (0..case.nodes.len()).filter(|c| case.nodes[*c].parent == Some(i as u16) && !case.nodes[*c].dead && case.nodes[*c].registered).collect();
+            for (pos, c) in child_ids.iter().enumerate() {
+                for (port, edges) in case.nodes[*c].outs.iter().enumerate() {
+                    for e in edges {
+                        if e.target == Target::Node(i as u16) && e.cid != 0 {
+                            late_edges.push((pos, port, e.clone()));
+                        }
+                    }
+                }
+            }
+        }
+        ProtoNode { node, children, late_edges }
     }
 
     let mut orphans = Vec::new();
